@@ -1,5 +1,6 @@
 //! Harness crate "core" (style P): path dependency on the real p2panda-core.
 //! Serves C18 (hybrid timestamps), C03/C05 (backlink validation), C01 (operation validation).
+//! p2panda-stream's `ingest/operation.rs` is mounted verbatim as `ingest_real` (style S2) for the ingest harnesses.
 #![allow(unused)]
 #[macro_use]
 pub mod sym;
@@ -10,6 +11,9 @@ pub mod c01;
 pub mod c18;
 pub mod c03;
 pub mod c05;
+#[path = "staged/ingest_operation.rs"]
+pub mod ingest_real;
+pub mod ingest;
 
 #[cfg(all(test, not(kani)))]
 mod replay_entry {
@@ -22,6 +26,7 @@ mod replay_entry {
             "c18::increment_is_strict" => crate::c18::increment_is_strict(),
             "c18::two_increments" => crate::c18::two_increments(),
             n if crate::c02::dispatch(n) => {}
+            n if crate::ingest::dispatch(n) => {}
             "c01::accepted_is_well_formed" => crate::c01::accepted_is_well_formed(),
             "c01::tamper_shape_00" => crate::c01::tamper_shape_00(),
             "c01::tamper_shape_01" => crate::c01::tamper_shape_01(),
